@@ -5,6 +5,7 @@ Every prose string carries a tag unique to its parameter (``zq_<name>``) and def
 unique per parameter where the type allows, so that re-attribution and loss are directly
 observable (no inference needed).
 """
+import re
 from collections import OrderedDict
 from copy import deepcopy
 
@@ -520,7 +521,7 @@ def _default_class_of(p):
     if "default" not in p:
         return "absent"
     v = p["default"]
-    if v is None or v in ("None", NoneStr, "```None```"):
+    if v is None or v in (NoneStr, "```None```"):
         return "none"
     if isinstance(v, bool):
         return "bool_true" if v else "bool_false"
@@ -587,6 +588,7 @@ def feat_from_ir(ir):
             "typ_class": _typ_class_of(p.get("typ"), name),
             "default_class": dc,
             "doc_class": _doc_class_of(p),
+            "doc_states_default": bool(re.search(r"[Dd]efaults? to", p.get("doc") or "")),
             "after_defaulted": seen_default,
             "kind": "kwargs" if kw else "param",
         }
